@@ -32,8 +32,11 @@ RULES = {
     "R9": "round trip of function value information below IR version 10 (shared rule S9): the parser of the composite names the serializer builds "
     "({domain}::{function}/{value}) splits at one occurrence of each separator (partition / maxsplit), never with an unbounded "
     "split followed by a length test - value names are free text and routinely contain '/'",
+    "R10": "the flags the serializer trusts are exact (shared with C01-R7): serialize_graph_into decides from is_graph_output()/"
+    "is_graph_input() which values get a value_info entry; the ownership hooks that maintain those flags count occurrences and are "
+    "never filtered by a test on the element",
 }
-FLOORS = {"R1": 30, "R2": 40, "R3": 2, "R4": 30, "R5": 2, "R6": 1, "R7": 1, "R8": 6, "R9": 2}
+FLOORS = {"R1": 30, "R2": 40, "R3": 2, "R4": 30, "R5": 2, "R6": 1, "R7": 1, "R8": 6, "R9": 2, "R10": 12}
 EXPLANATION = (
     "Effect summaries (writes on non-proto, non-fresh objects, class-qualified) of every serialize function; "
     "comparison of the attribute sets read by the serializer and supplied by the deserializer per IR class; "
@@ -270,6 +273,9 @@ def rule_r5(ctx):
 
 
 def run(ctx):
+    from . import c01
+
+    c01.rule_r7(ctx, rule="R10", consequence="; the serializer then skips the value_info of a node output that is no longer a graph output, so its type, shape, doc string and metadata are lost by IR -> proto -> IR")
     from ..shared import rule_s9
 
     rule_s9(ctx, "R9", "the type and shape of that function value are lost by IR -> proto -> IR")
